@@ -27,6 +27,22 @@ def signature(case, mask):
         h = op[3]
         sig["inplace"] = bool(h.get("inplace"))
         sig["multi_kw"] = len(h.get("kw") or []) + len(h.get("kwfn") or []) >= 2
+    # the written attribute has a dependant whose reset runs a default factory, and a user
+    # callback was made to raise in this operation
+    if op[0] in ("setattr", "delattr"):
+        targets = [op[2]]
+    elif op[0] == "helper" and op[2][1] is not None:
+        targets = [op[2][1]]
+    elif op[0] == "helper":     # top-level update / transform: the attributes named by the keywords
+        targets = [a for a, _ in (op[3].get("kw") or [])] + [a for a, _ in (op[3].get("kwfn") or [])]
+    else:
+        targets = []
+    writes_receiver = op[0] in ("setattr", "delattr") or (op[0] == "helper" and bool(op[3].get("inplace")))
+    if targets and writes_receiver and case["ops"][-1][1] is not None:
+        for c in case["table"]:
+            for a in c["attrs"]:
+                if a.get("factory") is not None and any(x in targets or x == 99 for x in a.get("inv_by") or []):
+                    sig["dependant_factory_raises"] = True
     return sig
 
 
